@@ -453,4 +453,6 @@ def r7(ctx):
 
 EXPLANATION = EXPLANATION + " (R7) the datagram codec returns each message of a multi-message datagram with its own type, number and bytes (shared C09.R2): fragments interleave with other messages in one datagram."
 
+EXPLANATION = EXPLANATION + " (R1, as built) the reader half is decided by partial evaluation of FragmentSender.parsePayload on fragments framed with the writer's own prefix format: it returns (id, index, count, the bytes behind the prefix)."
+
 RULES = [("C06.R1", r1), ("C06.R2", r2), ("C06.R3", r3), ("C06.R4", r4), ("C06.R5", r5), ("C06.R6", r_enum), ("C06.R7", r7)]
